@@ -15,7 +15,7 @@ oracle   : grammar-directed generator that emits text + expected tree (vlib/gen/
 import re
 
 from .. import core, ranges, sexp
-from ..gen import wf, parsecases, exspec
+from ..gen import wf, parsecases, exspec, words
 
 RULE = ("cases = well-formed programs from the grammar-directed generator vlib/gen/wf.py (every construct of the supported grammar, depth/size bounded) "
         "under random layout and keyword case, + every ordered pair of binary operators (a op1 b op2 c), + every block statement nested in every "
@@ -83,6 +83,7 @@ def run(ctx):
     ctx.prove("GoldModel.Props.C06")
     ctx.prove("GoldModel.Props.C06Expr")
     ctx.prove("GoldModel.Props.C06Alts")
+    ctx.prove("GoldModel.Props.C06Text")
     if not ctx.build_harness():
         return ctx.finish(rule=RULE)
     q = ctx.tier == "quick"
@@ -130,6 +131,7 @@ def run(ctx):
         expected.append(tree)
         ctx.count("generated-program")
     expr_spec(ctx, 3000 if q else 60000, 6)
+    words.render_tie(ctx, 3000 if q else 60000)
     lines = parsecases.texts_to_lines(ctx, texts)
     ctx.log("%d programs" % len(lines))
     impl = ctx.run_harness("parse", lines, timeout=1200)
@@ -237,6 +239,8 @@ def replay(ctx):
     import json
     d = json.load(open(ctx.replay))
     case = d.get("case", {})
+    if isinstance(case, dict) and case.get("mode") == "lex" and ("words" in case or "layout" in case):
+        return words.replay(ctx, case)
     if not isinstance(case, dict) or "text" not in case:
         print("replay file names no input:", json.dumps(d.get("broken", d), indent=1)[:3000])
         return 1
